@@ -393,6 +393,10 @@ func c13InitDirected() []*sim.Scn {
 	}
 	// what go-header's syncer does to the store wrapper: duplicate appends from two goroutines (repair cd64817)
 	out = append(out, &sim.Scn{Cfg: map[string]int64{"initkind": 3, "initfrom": 1, "initto": 512}})
+	// the four families once more, 32 schedules each, free-running in the race-detector build of this package
+	for kind := int64(0); kind < 4; kind++ {
+		out = append(out, &sim.Scn{Cfg: map[string]int64{"initkind": kind, "initfrom": 1, "initto": 32, "initrace": 1}})
+	}
 	return out
 }
 
